@@ -228,5 +228,8 @@ func genSsim(profile string, seed uint64, thorough bool) *Scenario {
 			scn.Sched.StallNs = []int64{int64(time.Millisecond), int64(time.Second), int64(time.Second)}
 		}
 	}
+	if scn.Backend == "fs" || scn.Backend == "fsenc" {
+		scn.FsMTime = g.chance(30)
+	}
 	return scn
 }
